@@ -637,8 +637,8 @@ fn main() {
         }
     }
     let grid_n = cases.len();
-    let n_rand_acc = run.tier.pick(60_000, 1_500_000);
-    let n_rand_e2e = run.tier.pick(6_000, 150_000);
+    let n_rand_acc = run.tier.pick(60_000, 1_000_000);
+    let n_rand_e2e = run.tier.pick(6_000, 80_000);
     let mut rng = Rng::new(run.seed, "c17");
     for _ in 0..n_rand_acc {
         cases.push(random_case(&mut rng, false));
